@@ -1,6 +1,6 @@
 ---- MODULE MCMarcusQuick ----
 EXTENDS Marcus
-MCEM1 == {-2, 1}
+MCEM1 == {-2}
 MCEM2 == {0, 3}
 MCUX1 == {0, 1}
 MCUX2 == {2}
